@@ -129,6 +129,20 @@ Fixpoint perms_eqb (a b : list (option permkey)) : bool :=
   match a, b with [], [] => true | x :: a', y :: b' => operm_eqb x y && perms_eqb a' b' | _, _ => false end.
 Definition routes_ok (t : htable) : bool :=
   forallb (fun e => perms_eqb (handler_perms t (fst e)) (expected_perms (fst e))) t.
+(* The property is about attributes NAMED BY THE PEER.  These are the handlers that take such a name (or use a fixed one),
+   in source order; the policy theorems are about them. *)
+Definition by_name_handlers : list string :=
+  ["cmp"; "getattr"; "delattr"; "setattr"; "callattr"; "ctxexit"; "oldslicing"]%string.
+(* Every other handler takes no attribute name: it works on the object as a whole (its special methods, its class, its
+   pickled state).  They are OUTSIDE the policy theorems; what they reveal does not depend on the seven attribute switches:
+     dir      -> the names dir(obj) lists;      inspect -> names and docstrings of the callables in the class dicts of type(obj);
+     pickle   -> the whole state, gated by allow_pickle alone (ValueError when off);
+     repr/str/hash/call/buffiter/instancecheck -> special methods of the object;  ping/close/getroot/del -> no object attribute. *)
+Definition whole_object_handlers : list string :=
+  ["ping"; "close"; "getroot"; "del"; "repr"; "str"; "hash"; "call"; "dir"; "inspect"; "instancecheck"; "pickle"; "buffiter"]%string.
+Definition is_nil {A} (l : list A) : bool := match l with [] => true | _ => false end.
+Definition handlers_with_routes (t : htable) : list string := map fst (filter (fun e => negb (is_nil (snd e))) t).
+Definition handlers_without_routes (t : htable) : list string := map fst (filter (fun e => is_nil (snd e)) t).
 
 (* ------------------------------------------------------------------ 2. concrete layer *)
 
@@ -267,6 +281,23 @@ Definition handle_restricted (g : bool) (c : cfg) (perm : permkey) (p : pyname) 
     end
   end.
 
+(* ---- a Service instance as the object (rpyc/core/service.py, class Service): no _rpyc_getattr (the configuration decides
+        reads), _rpyc_setattr and _rpyc_delattr raise AttributeError("access denied") -- the service denies writes and deletes
+        on itself whatever the configuration.  [ds]/[dd]: generated facts "the hook body is exactly that raise". ---- *)
+Definition svc_obj (l : list text) : obj := {| attrs := l; hook_get := false; hook_set := true; hook_del := true |}.
+Definition handle_service (ds dd : bool) (g : bool) (c : cfg) (perm : permkey) (p : pyname) (l : list text)
+  : result unit * list ev * obj :=
+  match nkind_of p with
+  | KOther => (Raise TypeError, [], svc_obj l)
+  | KBytesBad => (Raise (if g then TypeError else UnicodeError), [], svc_obj l)
+  | _ =>
+    match perm with
+    | PGet => let h := handle g c PGet p (svc_obj l) in (o_result h, o_trace h, o_obj h)
+    | PSet => if ds then (Raise AttributeError, [], svc_obj l) else (Unmodelled, [], svc_obj l)
+    | PDel => if dd then (Raise AttributeError, [], svc_obj l) else (Unmodelled, [], svc_obj l)
+    end
+  end.
+
 (* ------------------------------------------------------------------ 3. connections *)
 
 Inductive swkey := KSafe | KExposed | KPublic | KAll | KGetattr | KSetattr | KDelattr.
@@ -311,7 +342,14 @@ Definition classic_upd : upd :=
 
 (* facts about the source that decide aliasing (regenerated; see Gen_attrpolicy.init_copies_defaults etc.) *)
 Record facts := { f_init_copies : bool;      (* Connection.__init__: self._config = DEFAULT_CONFIG.copy() *)
-                  f_on_connect_own : bool }. (* SlaveService.on_connect updates conn._config of the conn it was given *)
+                  f_on_connect_own : bool;   (* SlaveService.on_connect updates conn._config of the conn it was given *)
+                  f_requests_leave_config : bool }.
+                  (* no code that runs while a request is served (or on close) writes any configuration dict: every write
+                     site found by the whole-tree scan is in Connection.__init__ or SlaveService.on_connect *)
+(* which of the scanned write sites run at open time only *)
+Definition open_time_site (s : string) : bool :=
+  String.eqb s "rpyc/core/protocol.py:Connection.__init__" || String.eqb s "rpyc/core/service.py:SlaveService.on_connect".
+Definition writes_at_open_only (sites : list (string * string)) : bool := forallb (fun w => open_time_site (fst w)) sites.
 
 Inductive svc := SvcPlain | SvcClassic.      (* SvcClassic: SlaveService / ClassicService (on_connect grants itself everything) *)
 Inductive hop :=
@@ -342,7 +380,9 @@ Definition step (F : facts) (w : world) (op : hop) : world :=
                 end in
       {| heap := h3; conns := conns w ++ [{| cell := c; live := true |}] |}
   | HClose i => {| heap := heap w; conns := upd_nth i (fun k => {| cell := cell k; live := false |}) (conns w) |}
-  | HAccess _ => w
+  | HAccess _ =>
+      if f_requests_leave_config F then w
+      else {| heap := map (fun _ => dummy_cfg) (heap w); conns := conns w |}   (* unknown writes: nothing can be said *)
   end.
 Definition run (F : facts) (d : cfg) (h : list hop) : world := fold_left (step F) h (init_world d).
 Definition cfg_of (w : world) (i : nat) : option cfg :=
@@ -429,18 +469,21 @@ Definition run_attr (x : sx) : sx :=
         SL [outcome_sx (handle (sx_bool g) (sx_cfg c) (sx_perm perm) (sx_name nm) (sx_obj o));
             sx_result via_sx (spec_decide (sx_cfg c) (sx_perm perm) (sx_name nm) (sx_obj o))]
       else bad_input
-  | SL [cmd; g; c; perm; nm; ra; wa; u] =>
-      if is_tag "restricted" cmd then
-        triple_sx (handle_restricted (sx_bool g) (sx_cfg c) (sx_perm perm) (sx_name nm)
-                     {| r_attrs := sx_texts ra;
-                        r_wattrs := match sx_l wa with [w] => Some (sx_texts w) | _ => None end;
-                        r_under := sx_obj u |})
+  | SL [cmd; ds; dd; g; c; perm; nm; l] =>
+      if is_tag "service" cmd then
+        triple_sx (handle_service (sx_bool ds) (sx_bool dd) (sx_bool g) (sx_cfg c) (sx_perm perm) (sx_name nm) (sx_texts l))
+      else if is_tag "restricted" cmd then
+        triple_sx (handle_restricted (sx_bool ds) (sx_cfg dd) (sx_perm g) (sx_name c)
+                     {| r_attrs := sx_texts perm;
+                        r_wattrs := match sx_l nm with [w] => Some (sx_texts w) | _ => None end;
+                        r_under := sx_obj l |})
       else bad_input
   | SL [cmd; f; d; ops] =>
       if is_tag "history" cmd then
         match sx_l f with
-        | [a; b] => SL (snapshots {| f_init_copies := sx_bool a; f_on_connect_own := sx_bool b |}
-                                  (init_world (sx_cfg d)) (map sx_hop (sx_l ops)))
+        | [a; b; r] => SL (snapshots {| f_init_copies := sx_bool a; f_on_connect_own := sx_bool b;
+                                         f_requests_leave_config := sx_bool r |}
+                                     (init_world (sx_cfg d)) (map sx_hop (sx_l ops)))
         | _ => bad_input
         end
       else bad_input
